@@ -68,17 +68,16 @@ def RegimeCore (e : Env K) (eps : K) (pt : Nat → P K) (n : Nat) : Prop :=
   ∧ (∀ i, i < n → eps < eL pt i)
   ∧ (∀ i, i < n - 1 → ¬ (eT pt i + eT pt (i + 1)).sqLen < normalEpsilon)
   ∧ (∀ i, i < n → e.hwFw * (tauAbs pt n i + tauAbs pt n (i + 1) + 1) ≤ eL pt i)
-  ∧ (∀ i, i < n - 1 → e.o.join = .miterClip → keptAt e (pt i) (pt (i + 1)) (pt (i + 1 + 1)))
 
 noncomputable instance (e : Env K) (eps : K) (pt : Nat → P K) (n : Nat) : Decidable (RegimeCore e eps pt n) := by
-  unfold RegimeCore keptAt; infer_instance
+  unfold RegimeCore; infer_instance
 
 /-- **no join folds in the regime**: the model's fold test is implied by the other conditions -/
 theorem regime_of_core {e : Env K} {eps : K} (hs0 : ∀ x : K, 0 ≤ x → 0 ≤ Transc.sqrt x)
     (hs : ∀ x : K, 0 ≤ x → Transc.sqrt x * Transc.sqrt x = x) (heps : 0 ≤ eps) (hw : 0 < e.hwFw)
     {pt : Nat → P K} {n : Nat} (hr : RegimeCore e eps pt n) : Regime e eps pt n := by
-  obtain ⟨r1, r2, r3, r4, r5⟩ := hr
-  refine ⟨r1, r2, r3, ?_, r4, r5⟩
+  obtain ⟨r1, r2, r3, r4⟩ := hr
+  refine ⟨r1, r2, r3, ?_, r4⟩
   intro i hi
   have hsq : ∀ k, k < n → 0 < (pt (k + 1) - pt k).sqLen := by
     intro k hk
